@@ -319,7 +319,8 @@ package reflect
 // (sign-extended from 32 bits for enums); every call site passes the kind of the descriptor whose
 // slot is being filled (ghost td, c01_kind).
 //@ func decodeFixedSizeTypes(t ttype, b []byte, p unsafe.Pointer) (n int)
-//@   ghost td *tType, dst Int
+//@   ghost td *tType, dst Int, wt Int
+//@   requires c03_wt: wt != 0 ==> td.WT == wt
 //@   requires c03_dest: dst != 0 ==> p == dst
 //@   requires c01_kind: td != nil && t == td.T
 //@   requires p != nil && typeToSize[t] > 0 && len(b) >= typeToSize[t]
@@ -391,6 +392,9 @@ package reflect
 //@   requires c15_budget: maxdepth >= maxDepthLimit + 2 - 2*lvl
 //@   decreases maxdepth
 //@   call decodeFixedSizeTypes ghost td = t
+//@   call Skip ghost fld = f
+//@   call Skip ghost wt = tp
+//@   call decodeFixedSizeTypes ghost wt = tp
 //@   call mallocIfPointer ghost sbase = base
 //@   call mallocIfPointer ghost fld = f
 //@   call mallocIfPointer ghost wid = $fid
@@ -479,6 +483,7 @@ package reflect
 //@   call decodeType ghost nc = false
 //@   call decodeType ghost dst = 0
 //@   call decodeFixedSizeTypes ghost dst = 0
+//@   call decodeFixedSizeTypes ghost wt = 0
 //@   call decodeFixedSizeTypes#0 ghost td = t
 //@   call decodeFixedSizeTypes#1 ghost td = kt
 //@   call decodeFixedSizeTypes#2 ghost td = vt
